@@ -80,8 +80,30 @@ func anchorMatches(ins ssa.Instruction, anchor string) bool {
 		}
 		return false
 	case "mapupdate":
-		_, ok := ins.(*ssa.MapUpdate)
-		return ok
+		// mapupdate        : any map update
+		// mapupdate:<name> : update of the map held in field <name> / parameter or variable <name>
+		mu, ok := ins.(*ssa.MapUpdate)
+		if !ok {
+			return false
+		}
+		if name == "" {
+			return true
+		}
+		switch m := mu.Map.(type) {
+		case *ssa.UnOp:
+			if fa, isFA := m.X.(*ssa.FieldAddr); isFA {
+				st := fa.X.Type().Underlying().(*types.Pointer).Elem().Underlying().(*types.Struct)
+				return st.Field(fa.Field).Name() == name
+			}
+			if a, isA := m.X.(*ssa.Alloc); isA {
+				return a.Comment == name
+			}
+		case *ssa.Parameter:
+			return m.Name() == name
+		case *ssa.Field:
+			return m.X.Type().Underlying().(*types.Struct).Field(m.Field).Name() == name
+		}
+		return false
 	case "return":
 		_, ok := ins.(*ssa.Return)
 		return ok
